@@ -87,4 +87,30 @@ def asFloatBits (j : Json) : R Float := do
 
 def floatBitsJ (x : Float) : Json := natJ x.toBits.toNat
 
+/-- Handle one protocol line: {"op": ..., ...} ↦ {"ok": value} | {"err": name}. -/
+def handleLine (handle : String → Json → R Json) (line : String) : String :=
+  let r : R Json := do
+    let j ← match Json.parse line with
+      | .ok j => pure j
+      | .error e => throw s!"parse: {e}"
+    let op ← asStr (← getField j "op")
+    handle op j
+  match r with
+  | .ok v => (Json.mkObj [("ok", v)]).compress
+  | .error e => (Json.mkObj [("err", Json.str e)]).compress
+
+partial def loop (handle : String → Json → R Json) (h : IO.FS.Stream) (out : IO.FS.Stream) : IO Unit := do
+  let line ← h.getLine
+  if line.isEmpty then return ()
+  let t := line.trimAscii.toString
+  if t.isEmpty then loop handle h out else
+  out.putStrLn (handleLine handle t)
+  loop handle h out
+
+/-- `main` of every per-property driver: one JSON object per stdin line, one JSON line out. -/
+def mainLoop (handle : String → Json → R Json) : IO Unit := do
+  let out ← IO.getStdout
+  loop handle (← IO.getStdin) out
+  out.flush
+
 end Molgri.Drv
